@@ -204,10 +204,33 @@ def h6(ctx):
                 if "slot::Slot" not in sub.local_ty(s["lhs"]["l"]) or not sub.local_ty(s["lhs"]["l"]).startswith("&mut"):
                     continue
                 r = sub.role_of_rvalue(s["rv"])
-                if not _mentions_fresh(crate, r):
-                    continue
                 tgt = sub.role_of_local(s["lhs"]["l"])
                 if not any(isinstance(x, tuple) and x[0] == "call" and x[1].endswith("slot_occurrences_mut") for x in role_walk(tgt)):
+                    continue
+                if not _mentions_fresh(crate, r):
+                    # a renaming helper parameterised by a closure: `*x = rename(*x)` — the closures its callers pass decide
+                    sr = strip_role(r)
+                    if isinstance(sr, tuple) and sr[0] == "call" and sr[1] in ("call_mut", "call", "call_once") and sr[3] and strip_role(sr[3][0])[0] == "param" and sub is b:
+                        pidx = b.param_index(strip_role(sr[3][0])[1])
+                        for caller in crate.bodies.values():
+                            for cs in caller.calls:
+                                if cs.callee and cs.callee.target == b.id and pidx is not None and pidx - 1 < len(cs.args) and not caller.blocks[cs.bb]["cleanup"]:
+                                    cl = C._closure_of_role(crate, caller.role_of_operand(cs.args[pidx - 1]))
+                                    if hasattr(cl, "calls") and (_mentions_fresh(crate, cl.role_of_local(0)) or any(x.callee and x.callee.name == "fresh" for sb_ in cl.all_bodies() for x in sb_.calls)):
+                                        n += 1
+                                        owner = crate.root_of(caller)
+                                        ins, gets = [], []
+                                        for bb in owner.all_bodies():
+                                            for c in bb.calls:
+                                                if not c.callee or bb.blocks[c.bb]["cleanup"]:
+                                                    continue
+                                                if c.callee.name == "insert" and len(c.args) == 3 and (_mentions_fresh(crate, bb.role_of_operand(c.args[2])) or True):
+                                                    ins.append(strip_role(bb.role_of_operand(c.args[0])))
+                                                if c.callee.name == "get" and len(c.args) == 2:
+                                                    gets.append(strip_role(bb.role_of_operand(c.args[0])))
+                                        ctx.check(any(i in gets for i in ins), "fresh-per-slot:" + C.fkey(owner),
+                                                  "%s records each invented slot in a map keyed by the old slot and reuses it for further occurrences" % C.short(owner.id),
+                                                  "%s renames slot occurrences through a closure that invents Slot::fresh() without memoising it per slot" % C.short(owner.id), where_of(caller, cs.bb))
                     continue
                 n += 1
                 # memoisation: an insert whose value is the invented slot, and a get on the same map
